@@ -27,7 +27,8 @@ func elfConst(c *Ctx, name string) (int64, bool) {
 
 // fieldLoadValuation binds loads of struct fields (by field name) to values.
 func fieldLoadValuation(vals map[string]int64, nilErr bool) *Valuation {
-	return &Valuation{
+	var vl *Valuation
+	vl = &Valuation{
 		Int: func(v ssa.Value) (int64, bool) {
 			if n, _, ok := FieldNameOfLoad(v); ok {
 				if x, has := vals[n]; has {
@@ -37,18 +38,35 @@ func fieldLoadValuation(vals map[string]int64, nilErr bool) *Valuation {
 			return 0, false
 		},
 		Bool: func(v ssa.Value) (bool, bool) {
-			if _, nn, ok := NilCheck(v); ok {
-				// every error is nil / non-nil as requested
-				return nn != nilErr, true
+			if x, nn, ok := NilCheck(v); ok {
+				// an error handed back by an entered helper is what the helper
+				// returned: nil, or a freshly made (non-nil) error
+				isNil := nilErr
+				switch r := vl.Root(x).(type) {
+				case *ssa.Const:
+					if r.IsNil() {
+						isNil = true
+					}
+				case *ssa.MakeInterface:
+					isNil = false
+				case *ssa.Call:
+					if f := r.Call.StaticCallee(); f != nil && (f.String() == "fmt.Errorf" || f.String() == "errors.New") {
+						isNil = false
+					}
+				}
+				// every other error is nil / non-nil as requested
+				return nn != isNil, true
 			}
 			return false, false
 		},
 	}
+	return vl
 }
 
 func checkC20(c *Ctx) {
 	c.Rule("C20.type", "NewParser, walked for each ELF file type named by the property (NONE, REL, EXEC, DYN, CORE), accepts exactly ET_EXEC and ET_DYN, and fails when the file cannot be opened")
-	c.Rule("C20.skip", "skipMachineCodeSection, walked over all 16 combinations of (type is PROGBITS, size is 0, address is 0, EXECINSTR flag set), keeps exactly non-empty, address-bearing, executable PROGBITS sections")
+	c.Rule("C20.skip", "MachineCode, walked over a one-section file for all 16 combinations of (type is PROGBITS, size is 0, address is 0, EXECINSTR flag set), reads (keeps) exactly non-empty, address-bearing, executable PROGBITS sections")
+	c.Rule("C20.seg", "Memory, walked over a one-segment file, loads every PT_LOAD segment with a non-zero in-memory size (with or without file bytes), no other segment, and rejects Memsz < Filesz with an error")
 	c.Rule("C20.load", "Memory(): only PT_LOAD segments; Memsz < Filesz is an error; the block is newBlock(Addr(p.Vaddr), file bytes read from p.Open() followed by Memsz-len(data) zero bytes). MachineCode(): newBlock(Addr(s.Addr), s.Data()) with len(data) == s.Size enforced; both collect every selected element and go through nonEmptyMemory/newMemory")
 	c.Rule("C20.overlap", "newMemory sorts blocks by Begin() and returns an error on the edge next.Begin() < prev.End(); an empty selection is an error; errors reach the caller")
 	c.Rule("C20.addr", "Block.Address returns bytes[a-Begin():] only under Begin() <= a < End(), and nil otherwise; Memory.Address finds the block by binary search on End() > addr and checks Begin() <= addr")
@@ -88,13 +106,26 @@ func checkC20(c *Ctx) {
 		c.Oblige("C20.type", ShortName(np)+"/opens-filename", c.Prog.FuncPos(np), okOpen, "NewParser does not open its own filename with debug/elf.Open")
 	}
 
-	// --- C20.skip
-	if sk := anchor(c, pkgElf+".skipMachineCodeSection"); sk != nil {
+	// --- C20.skip: MachineCode walked concretely (E7) over a file with one
+	// section, for all 16 combinations; the section is kept when its bytes are
+	// read (Section.Data) before the loop over the sections is left, however the
+	// selection is written (a skip predicate, a keep predicate, inline tests)
+	if mc := anchor(c, "(*"+pkgElf+".Parser).MachineCode"); mc != nil {
 		pb, ok1 := elfConst(c, "SHT_PROGBITS")
 		nb, ok2 := elfConst(c, "SHT_NOBITS")
 		ex, ok3 := elfConst(c, "SHF_EXECINSTR")
 		al, ok4 := elfConst(c, "SHF_ALLOC")
-		if ok1 && ok2 && ok3 && ok4 {
+		var loop *RangeLoop
+		for _, l := range RangeLoops(mc) {
+			if n, _, ok := FieldNameOfLoad(l.Over); ok && n == "Sections" {
+				loop = l
+			}
+		}
+		if loop == nil {
+			c.Undecide("C20.skip: MachineCode has no loop over the file's Sections")
+		}
+		nWalk := 0
+		if ok1 && ok2 && ok3 && ok4 && loop != nil {
 			for mask := 0; mask < 16; mask++ {
 				isPB, empty, noAddr, exec := mask&1 != 0, mask&2 != 0, mask&4 != 0, mask&8 != 0
 				vals := map[string]int64{"Type": nb, "Size": 64, "Addr": 0x1000, "Flags": al}
@@ -110,23 +141,70 @@ func checkC20(c *Ctx) {
 				if exec {
 					vals["Flags"] = al | ex
 				}
-				vl := fieldLoadValuation(vals, true)
-				res := vl.Walk(sk.Blocks[0], nil)
-				key := fmt.Sprintf("%s/progbits=%v,empty=%v,noaddr=%v,exec=%v", ShortName(sk), isPB, empty, noAddr, exec)
-				ret, isRet := res.End.(*ssa.Return)
-				if !res.OK || !isRet {
-					c.Fail("C20.skip", key, c.Prog.FuncPos(sk), "decision not computable: "+res.Why)
+				kept, left, res := walkOneElement(mc, loop, "Sections", "(*debug/elf.Section).Data", vals, vals["Size"])
+				key := fmt.Sprintf("%s/progbits=%v,empty=%v,noaddr=%v,exec=%v", ShortName(mc), isPB, empty, noAddr, exec)
+				if !left {
+					why := res.Why
+					if res.OK {
+						why = "MachineCode returns before it has gone through the sections"
+					}
+					c.Fail("C20.skip", key, c.Prog.FuncPos(mc), "decision not computable: "+why)
 					continue
 				}
-				skipped, known := res.RetBool[0]
-				if !known {
-					c.Fail("C20.skip", key, c.Prog.Pos(ret.Pos()), "the returned decision cannot be evaluated")
-					continue
-				}
-				want := !(isPB && !empty && !noAddr && exec)
-				c.Oblige("C20.skip", key, c.Prog.Pos(ret.Pos()), skipped == want, fmt.Sprintf("skipped=%v, expected %v", skipped, want))
+				nWalk++
+				want := isPB && !empty && !noAddr && exec
+				c.Oblige("C20.skip", key, c.Prog.FuncPos(mc), kept == want, fmt.Sprintf("section kept=%v, expected %v", kept, want))
 			}
 		}
+		c.RequireCount("C20.skip section kinds walked through MachineCode", nWalk, 16)
+	}
+
+	// --- C20.seg: Memory walked the same way over a one-segment file
+	if mm := anchor(c, "(*"+pkgElf+".Parser).Memory"); mm != nil {
+		ptLoad, ok1 := elfConst(c, "PT_LOAD")
+		ptNote, ok2 := elfConst(c, "PT_NOTE")
+		var loop *RangeLoop
+		for _, l := range RangeLoops(mm) {
+			if n, _, ok := FieldNameOfLoad(l.Over); ok && n == "Progs" {
+				loop = l
+			}
+		}
+		if loop == nil {
+			c.Undecide("C20.seg: Memory has no loop over the file's Progs")
+		}
+		nWalk := 0
+		if ok1 && ok2 && loop != nil {
+			for _, sc := range []struct {
+				load          bool
+				filesz, memsz int64
+			}{{true, 0, 16}, {true, 8, 8}, {true, 8, 16}, {true, 16, 8}, {false, 0, 16}, {false, 8, 8}, {false, 8, 16}} {
+				vals := map[string]int64{"Type": ptNote, "Filesz": sc.filesz, "Memsz": sc.memsz, "Vaddr": 0x1000, "Paddr": 0x1000, "Flags": 4}
+				if sc.load {
+					vals["Type"] = ptLoad
+				}
+				kept, left, res := walkOneElement(mm, loop, "Progs", "(*debug/elf.Prog).Open", vals, sc.filesz)
+				key := fmt.Sprintf("%s/loadable=%v,filesz=%d,memsz=%d", ShortName(mm), sc.load, sc.filesz, sc.memsz)
+				if sc.load && sc.memsz < sc.filesz {
+					// rejected with an error before anything else happens
+					_, isRet := res.End.(*ssa.Return)
+					isNil, known := res.RetNil[1]
+					nWalk++
+					c.Oblige("C20.seg", key, c.Prog.FuncPos(mm), res.OK && isRet && known && !isNil, "a loadable segment whose in-memory size is smaller than its file size is not rejected with an error")
+					continue
+				}
+				if !left {
+					why := res.Why
+					if res.OK {
+						why = "Memory returns before it has gone through the segments"
+					}
+					c.Fail("C20.seg", key, c.Prog.FuncPos(mm), "decision not computable: "+why)
+					continue
+				}
+				nWalk++
+				c.Oblige("C20.seg", key, c.Prog.FuncPos(mm), kept == sc.load, fmt.Sprintf("segment loaded=%v, expected %v", kept, sc.load))
+			}
+		}
+		c.RequireCount("C20.seg segment kinds walked through Memory", nWalk, 7)
 	}
 
 	// --- C20.load: the blocks of the two images, wherever they are built
@@ -192,7 +270,7 @@ func checkC20(c *Ctx) {
 		list: "Sections", addr: "Addr",
 		guard: func(c *Ctx, fieldOf func(name string, v ssa.Value, chain []*ssa.Call) bool, g CtxGuard, st *imageState) {
 			// skipMachineCodeSection(sec) is false
-			if call, ok := g.Cond.(*ssa.Call); ok && !g.Outcome && call.Call.StaticCallee() != nil && call.Call.StaticCallee().Name() == "skipMachineCodeSection" && st.isElem(call.Call.Args[0], g.Chain) {
+			if call, ok := g.Cond.(*ssa.Call); ok && !g.Outcome && call.Call.StaticCallee() != nil && NameOf(call.Call.StaticCallee()) == "skipMachineCodeSection" && st.isElem(call.Call.Args[0], g.Chain) {
 				st.ok["skip"] = true
 			}
 			if bo, ok := g.Cond.(*ssa.BinOp); ok && st.dataLen != nil {
@@ -201,7 +279,7 @@ func checkC20(c *Ctx) {
 				}
 			}
 		},
-		need: []string{"skip", "size"},
+		need: []string{"size"}, // which sections are selected is decided by C20.skip
 		why: map[string]string{
 			"skip": "a section that skipMachineCodeSection rejects can become part of the code image",
 			"size": "a section whose data length differs from its declared size is not rejected",
@@ -242,19 +320,9 @@ func checkC20(c *Ctx) {
 		sorted, overlap := false, false
 		var sortCall ssa.Instruction
 		for _, cs := range Calls(nm) {
-			if f := Callee(cs.Common()); f != nil && f.String() == "sort.Slice" {
-				if mc, ok := Unwrap(cs.Common().Args[1]).(*ssa.MakeClosure); ok {
-					if cmp, ok := mc.Fn.(*ssa.Function); ok {
-						for _, b := range cmp.Blocks {
-							if ret, isRet := b.Instrs[len(b.Instrs)-1].(*ssa.Return); isRet {
-								if bo, isBin := ret.Results[0].(*ssa.BinOp); isBin && bo.Op == token.LSS && matches(bo.X, Method("Begin", Any())) && matches(bo.Y, Method("Begin", Any())) {
-									sorted = true
-									sortCall = cs.Instr.(ssa.Instruction)
-								}
-							}
-						}
-					}
-				}
+			if sortsAscending(cs.Common(), func(v ssa.Value) bool { return matches(v, Method("Begin", Any())) }) {
+				sorted = true
+				sortCall = cs.Instr.(ssa.Instruction)
 			}
 		}
 		_ = overlap
@@ -505,12 +573,12 @@ func (bl *blockList) install(vl *Valuation, isList func(root ssa.Value) bool) {
 		switch x := v.(type) {
 		case *ssa.Field:
 			if f := FieldOf(x); f != nil {
-				return f.Name(), x.X, true
+				return NameOf(f), x.X, true
 			}
 		case *ssa.UnOp:
 			if fa, ok := x.X.(*ssa.FieldAddr); ok && x.Op == token.MUL {
 				if f := FieldOf(fa); f != nil {
-					return f.Name(), fa.X, true
+					return NameOf(f), fa.X, true
 				}
 			}
 		}
@@ -606,7 +674,7 @@ func checkImageBlocks(c *Ctx, rootName string, spec imageSpec) {
 	}
 	sites := DeepInstrs(root, enter, func(in ssa.Instruction) bool {
 		call, ok := in.(*ssa.Call)
-		return ok && call.Call.StaticCallee() != nil && call.Call.StaticCallee().Name() == "newBlock"
+		return ok && call.Call.StaticCallee() != nil && NameOf(call.Call.StaticCallee()) == "newBlock"
 	})
 	if len(sites) == 0 {
 		c.Fail("C20.load", key, c.Prog.FuncPos(root), ShortName(root)+" builds no block")
@@ -652,10 +720,57 @@ func checkImageBlocks(c *Ctx, rootName string, spec imageSpec) {
 		// collected into what nonEmptyMemory receives
 		app := false
 		for _, cs := range Calls(root) {
-			if f := Callee(cs.Common()); f != nil && f.Name() == "nonEmptyMemory" {
+			if f := Callee(cs.Common()); f != nil && NameOf(f) == "nonEmptyMemory" {
 				app = DependsOnVia(nil, cs.Common().Args[0], enter, func(v ssa.Value) bool { return v == ssa.Value(nb) }, nil)
 			}
 		}
 		c.Oblige("C20.load", k+"/collected", c.Prog.FuncPos(root), app, "the blocks built are not what nonEmptyMemory receives")
 	}
+}
+
+// walkOneElement walks an image builder (MachineCode / Memory) concretely over
+// a file whose list (Sections / Progs) has one element with the given field
+// values; every error is nil and the element's bytes, read with the callee
+// readFn (directly or through io.ReadAll), have length readLen. kept: the
+// element's bytes were read before the loop over the list was left; left: the
+// loop was left (the walk got through the list).
+func walkOneElement(fn *ssa.Function, loop *RangeLoop, list, readFn string, vals map[string]int64, readLen int64) (kept, left bool, res WalkResult) {
+	vl := fieldLoadValuation(vals, true)
+	fieldInt := vl.Int
+	isRead := func(v ssa.Value) bool {
+		call, ok := v.(*ssa.Call)
+		return ok && call.Call.StaticCallee() != nil && call.Call.StaticCallee().String() == readFn
+	}
+	isBytes := func(v ssa.Value) bool {
+		if isRead(v) {
+			return true
+		}
+		call, ok := v.(*ssa.Call)
+		return ok && call.Call.StaticCallee() != nil && call.Call.StaticCallee().String() == "io.ReadAll"
+	}
+	vl.Int = func(v ssa.Value) (int64, bool) {
+		if call, ok := v.(*ssa.Call); ok {
+			if bi, isB := call.Call.Value.(*ssa.Builtin); isB && bi.Name() == "len" {
+				arg := vl.Root(call.Call.Args[0])
+				if n, _, ok := FieldNameOfLoad(arg); ok && n == list {
+					return 1, true // one element
+				}
+				if e, ok := arg.(*ssa.Extract); ok && isBytes(e.Tuple) {
+					return readLen, true
+				}
+			}
+		}
+		return fieldInt(v)
+	}
+	vl.Enter = SamePackage(fn)
+	vl.Visit = func(in ssa.Instruction) {
+		if in.Parent() == fn && in.Block() == loop.Done {
+			left = true
+		}
+		if v, ok := in.(ssa.Value); ok && isRead(v) && !left {
+			kept = true
+		}
+	}
+	res = vl.Walk(fn.Blocks[0], nil)
+	return kept, left, res
 }
